@@ -166,3 +166,25 @@ Theorem C09_translated_other_events_leave_requests_alone :
   = Ok (sock, buf, ri, rc, on_status st, coins, k).
 Proof. exact RV.Proofs.CodeRespond.gen_process_events_other. Qed.
 Print Assumptions C09_translated_other_events_leave_requests_alone.
+
+(* C09 of the code as written: with fault injection off and sends succeeding, one wake-up of the
+   TRANSLATED process_events, on any server state reachable from Server::new, hands the socket exactly
+   the specified datagrams — one per accepted request, in arrival order within each protocol and batch,
+   each to its sender — and records exactly the specified events (proved by composing the translated-
+   equals-model theorem with C09_drain) *)
+Theorem C09_translated_process_events_meets_spec :
+  forall H ed_pk ed_sign, HashLen H -> PkLen ed_pk -> SigLen ed_sign ->
+  forall cfg lt oi oc s queue clk coins on_health on_status sent buf st events,
+    SInv H ed_pk ed_sign cfg lt oi oc s -> fault_pct cfg = 0 -> sends_ok cfg ->
+    (1 <= batch_size cfg)%nat -> (batch_size cfg <= 255)%nat ->
+    let srv := ltk_srv_value H ed_pk lt in
+    let n := batch_size cfg in
+    exists ri' rc',
+      ok_opt (RV.Proofs.CodeLib.omap (fun '(sock, _, ri', rc', st', _, _) => (ri', rc', snd sock, st'))
+         (gen_process_events H ed_sign cfg clk [EvMessage] on_health on_status (N.of_nat n)
+            (queue, sent) buf srv (s_ietf s) (s_classic s) st coins 0%nat events))
+      = Some (ri', rc',
+              sent ++ spec_drain_sent H ed_pk ed_sign (S (length queue)) n srv lt oi oc clk 0 queue,
+              st ++ spec_drain_stats H ed_pk ed_sign (S (length queue)) n srv lt oi oc clk 0 queue).
+Proof. exact RV.Proofs.CodeRespond.gen_process_events_spec. Qed.
+Print Assumptions C09_translated_process_events_meets_spec.
